@@ -42,6 +42,8 @@ class Rw:
 
     def apply(self, text, where):
         new, n = re.subn(self.pat, self.repl, text, flags=self.flags)
+        if self.count == "any":      # an optional normalisation: zero applications are fine
+            return new, n
         if (self.count is None and n == 0) or (self.count is not None and n != self.count):
             raise Drift("%s: rewrite %s /%s/ applied %d times, expected %s" %
                         (where, self.rid, self.pat, n, self.count))
@@ -201,6 +203,163 @@ def r3_fold(text):
         rep = ("{ let mut %s = %s; let mut __f%d: usize = 0; while __f%d < %s.len() { let %s = &%s[__f%d]; %s = %s; __f%d += 1; } %s }"
                % (acc, init, k, k, expr, x, expr, k, acc, body, k, acc))
         out = out[:mm.start()] + rep + out[cl + 1:]
+        n += 1
+    return out, n
+
+
+def _split_top_commas(t):
+    mask = rustscan.code_mask(t)
+    out, depth, cur = [], 0, []
+    for i, ch in enumerate(t):
+        if mask[i]:
+            if ch in "([{":
+                depth += 1
+            elif ch in ")]}":
+                depth -= 1
+            elif ch == "," and depth == 0:
+                out.append("".join(cur).strip()); cur = []
+                continue
+        cur.append(ch)
+    if "".join(cur).strip():
+        out.append("".join(cur).strip())
+    return out
+
+
+def r7b_write_fmt(text):
+    """R7b: `SINK.write_fmt(format_args!("FMT", args..)).unwrap()` (SINK a String) becomes a block of
+    string-sink calls, one per piece of the format string: literal -> s_lit(&mut SINK, ".."),
+    `{}` / `{name}` -> s_disp(&mut SINK, x, Fl::Plain), `{:#}` -> Fl::Alt, `{:.*}` (precision, value) and
+    `{:.1$}` (value, precision) -> Fl::Prec(p).  What core::fmt prints for a value under a flag is the
+    ASSUMED meaning of `sdisp`; writing into a String cannot fail (the unwrap is dropped with it)."""
+    n = 0
+    out = text
+    while True:
+        mask = rustscan.code_mask(out)
+        mm = None
+        for m in re.finditer(r"(\b[\w.]+?)\s*\.write_fmt\(\s*format_args!\(", out):
+            if mask[m.start()]:
+                mm = m
+                break
+        if not mm:
+            break
+        op = mm.end() - 1
+        cl = rustscan.match_brace(out, mask, op)          # closes format_args!(
+        inner = out[op + 1:cl]
+        # after it: `)` closing write_fmt and `.unwrap()`
+        m3 = re.match(r"\s*\)\s*\.unwrap\(\)", out[cl + 1:])
+        if not m3:
+            raise Drift("R7b: write_fmt(..) without .unwrap(): " + out[mm.start():cl + 30])
+        end = cl + 1 + m3.end()
+        parts = _split_top_commas(inner)
+        fmt = parts[0]
+        if not (fmt.startswith('"') and fmt.endswith('"')):
+            raise Drift("R7b: non-literal format string " + fmt[:40])
+        fmt = fmt[1:-1]
+        args = parts[1:]
+        sink = mm.group(1)
+        calls = []
+        pos = 0
+        ai = 0
+        for pm in re.finditer(r"\{\{|\}\}|\{([^{}]*)\}", fmt):
+            if pm.start() > pos:
+                calls.append('s_lit(&mut %s, "%s");' % (sink, fmt[pos:pm.start()]))
+            pos = pm.end()
+            if pm.group(0) in ("{{", "}}"):
+                calls.append('s_lit(&mut %s, "%s");' % (sink, pm.group(0)[0]))
+                continue
+            name, _, flags = pm.group(1).partition(":")
+            if flags == ".*":
+                prec = args[ai]; val = args[ai + 1]; ai += 2
+                calls.append("s_disp(&mut %s, %s, Fl::Prec(%s as usize));" % (sink, val, prec))
+                continue
+            if name == "":
+                val = args[ai]; ai += 1
+            else:
+                val = name
+            if flags == "":
+                fl = "Fl::Plain"
+            elif flags == "#":
+                fl = "Fl::Alt"
+            elif re.fullmatch(r"\.(\d+)\$", flags):
+                fl = "Fl::Prec(%s)" % args[int(flags[1:-1])]
+            elif re.fullmatch(r"\.\d+", flags):
+                fl = "Fl::Prec(%s)" % flags[1:]
+            else:
+                raise Drift("R7b: unsupported flags {%s}" % pm.group(1))
+            calls.append("s_disp(&mut %s, %s, %s);" % (sink, val, fl))
+        if pos < len(fmt):
+            calls.append('s_lit(&mut %s, "%s");' % (sink, fmt[pos:]))
+        out = out[:mm.start()] + "{ " + " ".join(calls) + " }" + out[end:]
+        n += 1
+    return out, n
+
+
+def r12_match_str(text):
+    """R12: `match E.as_str() { "lit" => A, ... , _ => D }` -> `if str_eq(E, "lit") { A } else if ... else { D }`
+    (string-literal patterns are not connected to view equality in Verus)."""
+    n = 0
+    out = text
+    while True:
+        mask = rustscan.code_mask(out)
+        mm = None
+        for m in re.finditer(r"match\s+(\w+)\.as_str\(\)\s*\{", out):
+            if mask[m.start()]:
+                mm = m
+                break
+        if not mm:
+            break
+        op = mm.end() - 1
+        cl = rustscan.match_brace(out, mask, op)
+        body = out[op + 1:cl]
+        bm = rustscan.code_mask(body)
+        arms = []
+        i = 0
+        L = len(body)
+        while i < L:
+            m2 = re.compile(r"\s*(\"(?:[^\"\\]|\\.)*\"|_)\s*=>\s*").match(body, i)
+            if not m2:
+                if body[i:].strip() == "":
+                    break
+                raise Drift("R12: unsupported arm near: " + body[i:i + 60])
+            pat = m2.group(1)
+            j = m2.end()
+            if body[j] == "{":
+                k = rustscan.match_brace(body, bm, j)
+                expr = body[j + 1:k]
+                j = k + 1
+                m4 = re.compile(r"\s*,?").match(body, j)
+                j = m4.end()
+            else:
+                depth = 0
+                k = j
+                while k < L:
+                    if bm[k]:
+                        if body[k] in "([{":
+                            depth += 1
+                        elif body[k] in ")]}":
+                            depth -= 1
+                        elif body[k] == "," and depth == 0:
+                            break
+                    k += 1
+                expr = body[j:k].strip()
+                if expr and not expr.endswith(";") and expr != "()":
+                    expr += ";"
+                if expr == "()":
+                    expr = ""
+                j = k + 1
+            arms.append((pat, expr))
+            i = j
+        chain = ""
+        default = ""
+        first = True
+        for pat, expr in arms:
+            if pat == "_":
+                default = expr
+                continue
+            chain += ("if" if first else " else if") + " str_eq(%s, %s) { %s }" % (mm.group(1), pat, expr)
+            first = False
+        chain += " else { %s }" % default
+        out = out[:mm.start()] + chain + out[cl + 1:]
         n += 1
     return out, n
 
